@@ -86,7 +86,7 @@ func e2eText(r *Rng, kind int) (string, coding.DataCoding) {
 func c10EndToEnd(r *Run) {
 	a := func(no string) pdu.Address { return pdu.Address{TON: 1, NPI: 1, No: no} }
 	n := r.N(160, 1500)
-	for i := 0; i < n; i++ {
+	for i := 0; i < n && !stallsExhausted(); i++ {
 		kind := i % 3
 		text, dc := e2eText(r.Rng, kind)
 		ref := r.Rng.Pick([]int{0, 1, 3, 23, 255, 256, 0x0103, 0x1234, 0xFFFF, r.Rng.Intn(0x10000)})
@@ -186,7 +186,13 @@ func c10EndToEnd(r *Run) {
 		panicked := false
 		for j, p := range hist {
 			step = j
-			if pk, msg := guard(func() { add(p) }); pk {
+			hung, pk, msg := callWatch(func() { add(p) })
+			if hung {
+				r.Fail("combine/never-returns", "a call of the combiner did not return", in, fmt.Sprintf("input %d: %s", j+1, msg), "returns normally")
+				panicked = true
+				break
+			}
+			if pk {
 				r.Fail("combine/panic", "the combiner panicked", in, fmt.Sprintf("panic at input %d: %s", j+1, msg), "returns normally")
 				panicked = true
 				break
